@@ -10,7 +10,7 @@ static struct {
     int readers, writers; /* harness-side holder model */
     int nA, cs_yield;
     wl_actor A[MAXA];
-    long shared_reads, max_readers;
+    long shared_reads, max_readers, tasklet_refusals;
     /* forced reader inclusion */
     volatile int r1_in, r2_in;
 } S;
@@ -61,6 +61,20 @@ static void body(wl_actor *a)
     }
 }
 
+/* under the 1.x API a tasklet must not take the lock: both routines return ABT_ERR_RWLOCK, and
+ * the refused call must leave the lock as it was (the other actors go on using it) */
+static void tasklet_body(wl_actor *a)
+{
+    for (int i = 0; i < a->nops; i++) {
+        a->cur_op = i;
+        int r = a->ops[i] == L_WR ? ABT_rwlock_wrlock(S.rw) : ABT_rwlock_rdlock(S.rw);
+        SIM_CHECK(r == ABT_ERR_RWLOCK, "rwlock:tasklet", "ABT_rwlock_%s called by a tasklet returned %d, documented: ABT_ERR_RWLOCK (%d)", a->ops[i] == L_WR ? "wrlock" : "rdlock", r,
+                  ABT_ERR_RWLOCK);
+        S.tasklet_refusals++;
+        sim_progress();
+    }
+}
+
 static void diag(char *buf, int sz)
 {
     int k = snprintf(buf, (size_t)sz, "readers=%d writers=%d r1_in=%d r2_in=%d ", S.readers, S.writers, S.r1_in, S.r2_in);
@@ -83,8 +97,10 @@ static void run_c10(void)
         wl_actor *a = &S.A[i];
         a->id = i;
         a->kind = plan_n(3) == 0 ? AK_EXT : AK_ULT;
+        if (i >= 2 && plan_n(5) == 0)
+            a->kind = AK_TASKLET;
         a->pool = (int)plan_n((uint32_t)rt->npools);
-        a->body = body;
+        a->body = a->kind == AK_TASKLET ? tasklet_body : body;
         a->nops = plan_range(1, maxops);
         sim_note("[%s@%d", wl_actor_kind_names[a->kind], a->pool);
         for (int j = 0; j < a->nops; j++) {
@@ -98,6 +114,7 @@ static void run_c10(void)
     wl_actors_join(rt, S.A, n);
     SIM_CHECK(S.readers == 0 && S.writers == 0, "rwlock:model", "holder model not idle at the end");
     sim_count("c10.reads_sharing_the_lock", (uint64_t)S.shared_reads);
+    sim_count("c10.tasklet_calls_refused", (uint64_t)S.tasklet_refusals);
     ABT_OK(ABT_rwlock_free(&S.rw));
     wl_rt_stop(rt);
 }
